@@ -57,6 +57,12 @@ def run_history(ctx, r, n_cmds, weights, oracle, legacy=None, prelude=None, gen_
                     "exit": rec["exit"]}
             trace.append(step)
             ctx.count(1, key=(req["cmd"], rec["errclass"] or "ok", mode_of(req), fieldset(req)))
+            if "err" in rec["post"] and "err" not in rec["pre"]:
+                # whatever the property, nothing of it is left once the store cannot be read any more: a command (successful or refused) that leaves
+                # behind a log no command can load is reported with the history that led to it
+                ctx.violation("%s store unreadable after %s (exit %s)" % (ctx.prop, req["cmd"], rec["exit"]),
+                              "the log was readable before this command and is not after it: %s" % str(rec["post"].get("err"))[:200], {"trace": trace})
+                return trace
             if rec["diff"] and not diverged:
                 ctx.tie_broken("T2-cmd", {"diff": rec["diff"], "trace": list(trace), "stderr": rec["stderr"][:300]})
                 diverged = True
